@@ -6,6 +6,8 @@ answer  : <STATE> | <14 regs> | <memory diff> | <call stack>   or ERR or PANIC
 import Driver.L1
 import Emu8086.Model.ILex
 import Emu8086.Spec.Exec
+import Emu8086.Spec.WF
+import Emu8086.Spec.Rep
 
 namespace Driver
 open Emu8086
@@ -73,6 +75,18 @@ def fmtOut (init : Std.HashMap Nat (BitVec 8)) : Except String (State × Machine
   | .error _ => "ERR"
   | .ok (st, m, ctx) => s!"{fmtState st} | {fmtRegs m} | {memDiff init m} | {fmtStack ctx.callStack}"
 
+/-- `xr` requests: the line is driven through the REPEAT protocol to completion (driver.rs loop) -/
+def handleRep (r : L2Req) (i : Instr) (ans : String) : Verdict :=
+  let fuel := r.m.cx.toNat + 2
+  let model := match runRep r.cur r.ctx i fuel r.m with
+    | some (st, m) => fmtOut r.initOv (.ok (st, m, r.ctx))
+    | none => "ERR"
+  let spec := match i with
+    | .str (some pre) op word =>
+      fmtOut r.initOv (.ok (.NEXT, Spec.repRef pre op word r.m.cx.toNat r.m, r.ctx))
+    | _ => model
+  { model := model, specOk := ans == spec, spec := spec, nontrivial := r.m.cx != 0#16 }
+
 def handleL2 (req ans : String) : Verdict :=
   match parseL2 req with
   | none => bad
@@ -80,6 +94,8 @@ def handleL2 (req ans : String) : Verdict :=
     match parseLine r.line with
     | none => { model := "ERR", specOk := ans == "ERR", spec := "ERR (line not in the interpreter language)", nontrivial := false }
     | some i =>
+      if !i.WF then bad else          -- the model's parser must only produce well-formed operands
+      if (words req).head? == some "xr" then handleRep r i ans else
       let mo := exec r.cur r.m r.ctx i
       let model := fmtOut r.initOv mo
       -- the spec's verdict on the IMPLEMENTATION's answer: compare with the reference semantics
@@ -104,5 +120,31 @@ def handleL2 (req ans : String) : Verdict :=
       let kf := Spec.knownFinding r.m r.ctx i
       { model := model, specOk := specOk, spec := specStr, kf := kf,
         nontrivial := match mo with | .ok (st, _, _) => st != State.NEXT || model != fmtOut r.initOv (.ok (State.NEXT, r.m, r.ctx)) | _ => false }
+
+
+/-- `xs` requests: a straight-line sequence `l1 ; l2 ; ...`; model = fold of `exec`, spec = fold of
+    `execRef` (the generator uses only instruction classes without undefined flags) -/
+def handleSeq (req ans : String) : Verdict :=
+  match parseL2 req with
+  | none => bad
+  | some r =>
+    let lines := r.line.splitOn " ; "
+    let instrs := lines.map parseLine
+    if instrs.any (·.isNone) then { model := "ERR", specOk := ans == "ERR", spec := "ERR", nontrivial := false } else
+    let is := instrs.filterMap id
+    if is.any (fun i => !i.WF) then bad else
+    let rec runM (k : Nat) (m : Machine) (c : Ctx) (st : State) : List Instr → Except String (State × Machine × Ctx)
+      | [] => .ok (st, m, c)
+      | i :: rest => match exec (r.cur + k) m c i with
+        | .ok (st', m', c') => runM (k + 1) m' c' st' rest
+        | .error e => .error e
+    let rec runS (k : Nat) (m : Machine) (c : Ctx) (st : State) : List Instr → Except String (State × Machine × Ctx)
+      | [] => .ok (st, m, c)
+      | i :: rest => match Spec.execRef (r.cur + k) m c i with
+        | .ok (st', m', c', _) => runS (k + 1) m' c' st' rest
+        | .error e => .error e
+    let model := fmtOut r.initOv (runM 0 r.m r.ctx .NEXT is)
+    let spec := fmtOut r.initOv (runS 0 r.m r.ctx .NEXT is)
+    { model := model, specOk := ans == spec, spec := spec, nontrivial := is.length > 1 }
 
 end Driver
